@@ -181,6 +181,20 @@ def security_ops(world):
     return ops
 
 
+def first_offender(world, off, cons):
+    """which consulted file offends an ACTIVE rule first?  (path, [rules]) or None"""
+    for p in cons:
+        o = list(off.get(p, []))
+        if world["req_uid"] == NOID and "owner" not in o:
+            o.append("owner")
+        if world["req_gid"] == NOID and "group" not in o:
+            o.append("group")
+        active = [r for r in o if r in world["rules"]]
+        if active:
+            return (p, active)
+    return None
+
+
 def one_plan(world, offences, restricted):
     read = dict(world["read"])
     ep = world["ep"]
@@ -193,6 +207,11 @@ def one_plan(world, offences, restricted):
     if cbv:
         from . import c06 as _c06
         cb1 = {"nested": _c06.POLICY} if world.get("nested") else {}
+        fo = first_offender(world, offences, consulted_of(world)) if restricted else None
+        if fo and not world.get("nested") and (world.get("attr_seed", 0) >> 3) % 3 == 0:
+            # the caller's check would veto the very file that offends the rule: the rule comes first, the specific
+            # code is reported and the callback is not asked about that file
+            cb1 = {"reject_norm": [fo[0]], "reject_spelled": [gen.rel(read, fo[0])]}
     r1 = gen.layered_read_ops(read, cb=cb1, init=world["init"])
     for o in r1:
         if "tag" in o:
@@ -247,18 +266,7 @@ def check(world, plans, results):
     for k, (label, off) in enumerate(variants(world), start=1):
         plan, res = plans[k], results[k]
         r1, r2 = tagged(plan, res, "read1"), tagged(plan, res, "read2")
-        # which consulted file offends an ACTIVE rule first?
-        first = None
-        for p in cons:
-            o = list(off.get(p, []))
-            if world["req_uid"] == NOID and "owner" not in o:
-                o.append("owner")
-            if world["req_gid"] == NOID and "group" not in o:
-                o.append("group")
-            active = [r for r in o if r in world["rules"]]
-            if active:
-                first = (p, active)
-                break
+        first = first_offender(world, off, cons)
         if first is None:
             if r1["rc"] != b_rc or (b_rc == 0 and view(tagged(plan, res, "dump1")) != b_dump):
                 v.fail("conforming", "plan %s: all files satisfy the active rules %r but the restricted read returns rc=%r (unrestricted: %r) or different content" % (label, world["rules"], r1["rc"], b_rc))
